@@ -168,6 +168,25 @@ def check_optimizers(ctx):
             ctx.count("optimizer:clipped" if m["norm"] >= max_norm else "optimizer:unclipped")
             if not ctx.close(u, m["update"], 64.0):
                 ctx.phi_fail("updates_through_global_norm_clip_then_adam", case, key="opt:" + name)
+    # several consecutive updates: the clipped gradient (not the raw one) must enter Adam's moments
+    for name, (algo, max_norm, lr) in algos.items():
+        for rep in range(ctx.budget(2, 8)):
+            n = int(rng.integers(2, 7))
+            scales = [float(rng.choice([20.0, 50.0])), float(rng.choice([0.05, 0.2])), float(rng.choice([0.5, 5.0]))]
+            grads = [rng.normal(size=n) * sc for sc in scales]
+            params = {"w": jnp.zeros(n)}
+            state = algo.optimizer.init(params)
+            ups = []
+            for g in grads:
+                u, state = algo.optimizer.update({"w": jnp.asarray(g)}, state, params)
+                ups.append(np.asarray(u["w"], np.float64))
+            g64 = [np.asarray(jnp.asarray(g), np.float64) for g in grads]
+            m = ctx.drv.call("opt_steps", max_norm=max_norm, lr=lr, grads=g64)
+            case = {"kind": "optimizer-sequence", "algo": name, "grads": g64, "impl_updates": ups, "model_updates": m}
+            ctx.case(case, True)
+            ctx.count("optimizer:sequences")
+            if not all(ctx.close(u, mu, 256.0) for u, mu in zip(ups, m)):
+                ctx.phi_fail("updates_through_global_norm_clip_then_adam", case, key="opt-seq:" + name)
     # SAC has no global-norm clipping by construction (plain Adam): documented, not part of the statement
 
 
